@@ -16,7 +16,8 @@ from .sym import OutOfSubset, EngineError
 
 VERIF = os.path.dirname(os.path.dirname(os.path.dirname(os.path.abspath(__file__))))
 REPO = os.environ.get('VERIF_REPO', '/repo')
-WORK = os.path.join(VERIF, 'work')
+WORK = os.environ.get('VERIF_WORK') or os.path.join(VERIF, 'work')
+EVDIR = os.environ.get('VERIF_EVIDENCE_DIR') or os.path.join(VERIF, 'evidence')
 
 _PROG = None
 _TIER = 'quick'
@@ -161,8 +162,8 @@ def main(argv):
     os.makedirs(WORK, exist_ok=True)
     import shutil
     shutil.rmtree(os.path.join(WORK, 'replay', prop), ignore_errors=True)
-    os.makedirs(os.path.join(VERIF, 'evidence'), exist_ok=True)
-    evpath = os.path.join(VERIF, 'evidence', prop + '.json')
+    os.makedirs(EVDIR, exist_ok=True)
+    evpath = os.path.join(EVDIR, prop + '.json')
     try:
         cs = P.load_contracts(REPO)
     except Exception as ex:
